@@ -81,10 +81,10 @@ Ltac inv_ok :=
   end.
 
 Theorem fenchel_young_all e : forall n w x y vx vy,
-  wf n e -> wpos w -> length w = n -> length x = n -> length y = n ->
+  wf n e -> wpos w -> wadm w e -> length w = n -> length x = n -> length y = n ->
   val e w x = Ok vx -> cval w e y = Ok vy -> fy vx vy (wdot w x y).
 Proof.
-  fxind e; intros n w x y vx vy Hwf Hw Lw Lx Ly Hv Hc; subst n.
+  fxind e; intros n w x y vx vy Hwf Hw Hwa Lw Lx Ly Hv Hc; subst n; cbn [wadm] in Hwa.
   - (* FLp *) cbn in Hv, Hc. inv_ok. unfold fy. numR.
     destruct (Rltb_spec (1 + 0) (lpn (pconj p) w y)); cbn [eadd]; [exact I|].
     numR. pose proof (lp_holder p w x y Hw ltac:(congruence) ltac:(lra)). lra.
@@ -128,18 +128,18 @@ Proof.
     rewrite cval_FLeft in Hc by assumption. cbn [value] in Hv.
     destruct (val f w x) as [v|] eqn:E1; cbn [rbind] in Hv; inv_ok.
     destruct (cval w f (vscal (1 / s) y)) as [v'|] eqn:E2; cbn [rbind] in Hc; inv_ok.
-    pose proof (IHf _ w x (vscal (1 / s) y) v v' Hwf Hw eq_refl Lx ltac:(rewrite vscal_length; assumption) E1 E2) as H.
+    pose proof (IHf _ w x (vscal (1 / s) y) v v' Hwf Hw Hwa eq_refl Lx ltac:(rewrite vscal_length; assumption) E1 E2) as H.
     apply (fy_escal s) in H; [|assumption]. rewrite wdot_vscal_r in H.
     replace (s * (1 / s * wdot w x y)) with (wdot w x y) in H by (field; lra). exact H.
   - (* FRight *) cbn [wf] in Hwf. destruct Hwf as [Hs Hwf].
     rewrite cval_FRight in Hc by assumption. cbn [value] in Hv.
-    pose proof (IHf _ w (vscal s x) (vscal (1 / s) y) vx vy Hwf Hw eq_refl
+    pose proof (IHf _ w (vscal s x) (vscal (1 / s) y) vx vy Hwf Hw Hwa eq_refl
                   ltac:(rewrite vscal_length; assumption) ltac:(rewrite vscal_length; assumption) Hv Hc) as H.
     rewrite wdot_vscal_r, wdot_vscal_l in H.
     replace (1 / s * (s * wdot w x y)) with (wdot w x y) in H by (field; lra). exact H.
   - (* FRightVec *) cbn [wf] in Hwf. destruct Hwf as (Lv & Hnz & Hwf).
     rewrite cval_FRightVec in Hc. cbn [value] in Hv.
-    pose proof (IHf _ w (vmul x v) (vmul y (map (fun a => 1 / a) v)) vx vy Hwf Hw eq_refl
+    pose proof (IHf _ w (vmul x v) (vmul y (map (fun a => 1 / a) v)) vx vy Hwf Hw Hwa eq_refl
                   ltac:(rewrite vmul_length; congruence)
                   ltac:(rewrite vmul_length; [congruence | rewrite map_length; congruence]) Hv Hc) as H.
     rewrite wdot_vmul_inv in H by (assumption || congruence). exact H.
@@ -147,12 +147,12 @@ Proof.
   - (* FScalarSum *) cbn [wf] in Hwf. rewrite cval_FScalarSum in Hc. cbn [value] in Hv. unfold radd in *.
     destruct (val f w x) as [v|] eqn:E1; cbn [rbind] in Hv; inv_ok.
     destruct (cval w f y) as [v'|] eqn:E2; cbn [rbind] in Hc; inv_ok.
-    pose proof (IHf _ w x y v v' Hwf Hw eq_refl Lx Ly E1 E2) as H.
+    pose proof (IHf _ w x y v v' Hwf Hw Hwa eq_refl Lx Ly E1 E2) as H.
     apply (fy_shift _ _ _ c (-1 * c)) in H. eapply fy_weaken; [|exact H]. lra.
   - (* FTransl *) cbn [wf] in Hwf. destruct Hwf as [Lt Hwf].
     rewrite cval_FTransl in Hc. cbn [value] in Hv.
     destruct (cval w f y) as [v'|] eqn:E2; cbn [rbind] in Hc; inv_ok.
-    pose proof (IHf _ w (vsub x t) y vx v' Hwf Hw eq_refl ltac:(rewrite vsub_length; congruence) Ly Hv E2) as H.
+    pose proof (IHf _ w (vsub x t) y vx v' Hwf Hw Hwa eq_refl ltac:(rewrite vsub_length; congruence) Ly Hv E2) as H.
     rewrite wdot_vsub_l in H by congruence.
     apply (fy_shift_r _ _ _ (0 * wdot w y y)) in H.
     apply (fy_shift_r _ _ _ (wdot w y t)) in H.
@@ -166,7 +166,7 @@ Proof.
               fy (eadd (eadd (eadd v (EFin (0 * wdot w x x)%num)) (EFin (wdot w x u))) (EFin c))
                  (eadd v' (EFin (- 1 * c))) (wdot w x y)).
     { intros v' E2.
-      pose proof (IHf _ w x (vsub y u) v v' Hwf Hw eq_refl Lx ltac:(rewrite vsub_length; congruence) E1 E2) as H.
+      pose proof (IHf _ w x (vsub y u) v v' Hwf Hw Hwa eq_refl Lx ltac:(rewrite vsub_length; congruence) E1 E2) as H.
       rewrite wdot_vsub_r in H by congruence.
       apply (fy_shift_l _ _ _ (0 * wdot w x x)) in H.
       apply (fy_shift_l _ _ _ (wdot w x u)) in H.
@@ -188,18 +188,21 @@ Proof.
       by (intros l Hl; rewrite firstn_length; lia).
     assert (Ls : forall l : Rvec, length l = length w -> length (skipn k l) = (length w - k)%nat)
       by (intros l Hl; rewrite skipn_length; lia).
-    pose proof (IHf k _ _ _ _ _ Hwf1 (wpos_firstn k w Hw) (Lf w eq_refl) (Lf x Lx) (Lf y Ly) E1 C1) as H1.
-    pose proof (IHg (length w - k)%nat _ _ _ _ _ Hwf2 (wpos_skipn k w Hw) (Ls w eq_refl) (Ls x Lx) (Ls y Ly) E2 C2) as H2.
+    pose proof (IHf k _ _ _ _ _ Hwf1 (wpos_firstn k w Hw) (proj1 Hwa) (Lf w eq_refl) (Lf x Lx) (Lf y Ly) E1 C1) as H1.
+    pose proof (IHg (length w - k)%nat _ _ _ _ _ Hwf2 (wpos_skipn k w Hw) (proj2 Hwa) (Ls w eq_refl) (Ls x Lx) (Ls y Ly) E2 C2) as H2.
     rewrite (wdot_split k w x y). apply fy_sum; assumption.
+  - (* FPair *) cbn [wf] in Hwf. destruct Hwf as (_ & _ & Hok). destruct (Hok w Hw eq_refl Hwa) as (Hfy & _).
+    cbn [value] in Hv. unfold Rules.cval in Hc. cbn [cconj value] in Hc.
+    exact (Hfy pb x y vx vy Lx Ly Hv Hc).
 Qed.
 
 
 (* the same statement with the conjugate tree made explicit *)
 Corollary fenchel_young_tree e e' n w x y vx vy :
-  wf n e -> wpos w -> length w = n -> length x = n -> length y = n ->
+  wf n e -> wpos w -> wadm w e -> length w = n -> length x = n -> length y = n ->
   val e w x = Ok vx -> cj w e = Ok e' -> val e' w y = Ok vy -> fy vx vy (wdot w x y).
 Proof.
-  intros Hwf Hw Lw Lx Ly Hv Hc Hv'. eapply fenchel_young_all; eauto.
+  intros Hwf Hw Ha Lw Lx Ly Hv Hc Hv'. eapply fenchel_young_all; eauto.
   unfold Rules.cval. rewrite Hc. exact Hv'.
 Qed.
 
